@@ -33,6 +33,8 @@ pub struct SocketCore {
   pub(crate) shutdown_coordinator: TokioMutex<ShutdownCoordinator>,
   // Lockless running flag — false as soon as shutdown begins.
   pub(crate) is_running_flag: AtomicBool,
+  // True once the command loop has ended and will never read the mailbox again.
+  pub(crate) mailbox_closed: AtomicBool,
 }
 
 impl SocketCore {
@@ -56,6 +58,7 @@ impl SocketCore {
       socket_logic: TokioRwLock::new(None),
       shutdown_coordinator: TokioMutex::new(ShutdownCoordinator::default()),
       is_running_flag: AtomicBool::new(true),
+      mailbox_closed: AtomicBool::new(false),
     });
 
     let socket_logic_arc_impl: Arc<dyn ISocket> = match socket_type {
